@@ -39,12 +39,12 @@ theorem render_strarr_empty (K : Consts) (ts : TypeSystem) (cass : List Cas) (H 
     (hsa : isInstanceOf ts f.range STRING_ARRAY = true)
     (hev : slot H c "elements" = some ev) (hemp : ev = .refs [] ∨ ev = .strs [])
     (hann : AnnSofa cass isAnn o) :
-    renderFeature K ts cass H a isAnn f = .ok ([(f.name, "")], []) := by
+    renderFeature K ts cass H a isAnn f = .ok ([(xmlName f, "")], []) := by
   obtain ⟨hres, n1, n2, _, _, hns⟩ := nk
   have hs := slot_eq ho
   unfold renderFeature
-  simp only [beq_iff_eq, Bool.or_eq_true, n1, n2, or_self, reduceCtorEq, Bool.false_eq_true, if_false, hs, hv,
-    Option.getD_some, hres, hm, Bool.not_false, Bool.and_true, hsa, if_true]
+  simp only [beq_iff_eq, Bool.or_eq_true, n1, n2, or_self, reduceCtorEq, if_false, hs, hv,
+    Option.getD_some, xmlName_def, xmlName_begin f hres, xmlName_end f hres, xmlName_sofa f hres, hm, Bool.not_false, Bool.and_true, hsa, if_true]
   rcases hemp with rfl | rfl
   · flat_tail hann with (simp only [pure, Except.pure, bind, Except.bind, hev])
   · flat_tail hann with (simp only [pure, Except.pure, bind, Except.bind, hev])
@@ -56,12 +56,12 @@ theorem render_strarr_cons (K : Consts) (ts : TypeSystem) (cass : List Cas) (H :
     (hsa : isInstanceOf ts f.range STRING_ARRAY = true)
     (hev : slot H c "elements" = some (.strs l)) (hl : l ≠ [])
     (hann : AnnSofa cass isAnn o) :
-    renderFeature K ts cass H a isAnn f = .ok ([], l.map (fun e => (f.name, normTxt e))) := by
+    renderFeature K ts cass H a isAnn f = .ok ([], l.map (fun e => (xmlName f, normTxt e))) := by
   obtain ⟨hres, n1, n2, _, _, hns⟩ := nk
   have hs := slot_eq ho
   unfold renderFeature
-  simp only [beq_iff_eq, Bool.or_eq_true, n1, n2, or_self, reduceCtorEq, Bool.false_eq_true, if_false, hs, hv,
-    Option.getD_some, hres, hm, Bool.not_false, Bool.and_true, hsa, if_true]
+  simp only [beq_iff_eq, Bool.or_eq_true, n1, n2, or_self, reduceCtorEq, if_false, hs, hv,
+    Option.getD_some, xmlName_def, xmlName_begin f hres, xmlName_end f hres, xmlName_sofa f hres, hm, Bool.not_false, Bool.and_true, hsa, if_true]
   cases l with
   | nil => exact absurd rfl hl
   | cons x xs =>
@@ -77,15 +77,15 @@ theorem render_strlist (K : Consts) (ts : TypeSystem) (cass : List Cas) (H : Hea
     (hcl : collectList H (H.length + 1) (.ref c) = .ok hs')
     (hk : ∀ h ∈ hs', h = .none ∨ ∃ s : String, h = .str s)
     (hann : AnnSofa cass isAnn o) :
-    renderFeature K ts cass H a isAnn f = .ok ([], hs'.map (fun h => (f.name, kidTxt h))) := by
+    renderFeature K ts cass H a isAnn f = .ok ([], hs'.map (fun h => (xmlName f, kidTxt h))) := by
   obtain ⟨hres, n1, n2, _, _, hns⟩ := nk
   have hs := slot_eq ho
   unfold renderFeature
   simp only [beq_iff_eq, Bool.or_eq_true, n1, n2, or_self, reduceCtorEq, Bool.false_eq_true, if_false, hs, hv,
-    Option.getD_some, hres, hm, Bool.not_false, Bool.and_true, hsa, hsl, if_true]
+    Option.getD_some, xmlName_def, xmlName_begin f hres, xmlName_end f hres, xmlName_sofa f hres, hm, Bool.not_false, Bool.and_true, hsa, hsl, if_true]
   flat_tail hann with (
     simp only [pure, Except.pure, bind, Except.bind, hcl]
-    rw [mapM_ok _ (fun h => (f.name, kidTxt h)) hs' (by
+    rw [mapM_ok _ (fun h => (xmlName f, kidTxt h)) hs' (by
       intro h hh
       rcases hk h hh with rfl | ⟨s, rfl⟩ <;> rfl)])
 
@@ -98,12 +98,12 @@ theorem render_primarr (K : Consts) (ts : TypeSystem) (cass : List Cas) (H : Hea
     (hpa : isPrimitiveArray K f.range = true)
     (hev : slot H c "elements" = some ev) (hne : ev ≠ .none) (hsp : showPrimArray f.range ev = .ok s)
     (hann : AnnSofa cass isAnn o) :
-    renderFeature K ts cass H a isAnn f = .ok ([(f.name, s)], []) := by
+    renderFeature K ts cass H a isAnn f = .ok ([(xmlName f, s)], []) := by
   obtain ⟨hres, n1, n2, _, _, hns⟩ := nk
   have hs := slot_eq ho
   unfold renderFeature
   simp only [beq_iff_eq, Bool.or_eq_true, n1, n2, or_self, reduceCtorEq, Bool.false_eq_true, if_false, hs, hv,
-    Option.getD_some, hres, hm, Bool.not_false, Bool.and_true, hsa, hsl, hpa, if_true]
+    Option.getD_some, xmlName_def, xmlName_begin f hres, xmlName_end f hres, xmlName_sofa f hres, hm, Bool.not_false, Bool.and_true, hsa, hsl, hpa, if_true]
   cases ev with
   | none => exact absurd rfl hne
   | _ => flat_tail hann with (simp only [pure, Except.pure, bind, Except.bind, hev, hsp])
@@ -120,12 +120,12 @@ theorem render_primlist (K : Consts) (ts : TypeSystem) (cass : List Cas) (H : He
     (hcl : collectList H (H.length + 1) (.ref c) = .ok hs')
     (hk : hs'.mapM showPrim = .ok toks)
     (hann : AnnSofa cass isAnn o) :
-    renderFeature K ts cass H a isAnn f = .ok ([(f.name, joinSp toks)], []) := by
+    renderFeature K ts cass H a isAnn f = .ok ([(xmlName f, joinSp toks)], []) := by
   obtain ⟨hres, n1, n2, _, _, hns⟩ := nk
   have hs := slot_eq ho
   unfold renderFeature
   simp only [beq_iff_eq, Bool.or_eq_true, n1, n2, or_self, reduceCtorEq, Bool.false_eq_true, if_false, hs, hv,
-    Option.getD_some, hres, hm, Bool.not_false, Bool.and_true, hsa, hsl, hpa, hpl, if_true]
+    Option.getD_some, xmlName_def, xmlName_begin f hres, xmlName_end f hres, xmlName_sofa f hres, hm, Bool.not_false, Bool.and_true, hsa, hsl, hpa, hpl, if_true]
   flat_tail hann with (simp only [pure, Except.pure, bind, Except.bind, hcl, hk])
 
 theorem render_fsarr (K : Consts) (ts : TypeSystem) (cass : List Cas) (H : Heap) (a : Nat) (isAnn : Bool) (f : Feature)
@@ -139,13 +139,13 @@ theorem render_fsarr (K : Consts) (ts : TypeSystem) (cass : List Cas) (H : Heap)
     (hr : f.range = FS_ARRAY)
     (hev : slot H c "elements" = some (.refs l)) (hids : refIds H l = .ok ids)
     (hann : AnnSofa cass isAnn o) :
-    renderFeature K ts cass H a isAnn f = .ok ([(f.name, joinSp ids)], []) := by
+    renderFeature K ts cass H a isAnn f = .ok ([(xmlName f, joinSp ids)], []) := by
   obtain ⟨hres, n1, n2, _, _, hns⟩ := nk
   have hs := slot_eq ho
   have hfa : (f.range == FS_ARRAY) = true := by rw [hr]; rfl
   unfold renderFeature
   simp only [beq_iff_eq, Bool.or_eq_true, n1, n2, or_self, reduceCtorEq, Bool.false_eq_true, if_false, hs, hv,
-    Option.getD_some, hres, hm, Bool.not_false, Bool.and_true, hsa, hsl, hpa, hpl, hfa, if_true]
+    Option.getD_some, xmlName_def, xmlName_begin f hres, xmlName_end f hres, xmlName_sofa f hres, hm, Bool.not_false, Bool.and_true, hsa, hsl, hpa, hpl, hfa, if_true]
   flat_tail hann with (simp only [pure, Except.pure, bind, Except.bind, hev, hids])
 
 theorem render_fslist (K : Consts) (ts : TypeSystem) (cass : List Cas) (H : Heap) (a : Nat) (isAnn : Bool) (f : Feature)
@@ -161,14 +161,14 @@ theorem render_fslist (K : Consts) (ts : TypeSystem) (cass : List Cas) (H : Heap
     (hcl : collectList H (H.length + 1) (.ref c) = .ok hs')
     (hk : ∀ h ∈ hs', ∃ b : Nat, h = .ref b ∧ RefOk H b)
     (hann : AnnSofa cass isAnn o) :
-    renderFeature K ts cass H a isAnn f = .ok ([(f.name, joinSp (hs'.map (refTok H)))], []) := by
+    renderFeature K ts cass H a isAnn f = .ok ([(xmlName f, joinSp (hs'.map (refTok H)))], []) := by
   obtain ⟨hres, n1, n2, _, _, hns⟩ := nk
   have hs := slot_eq ho
   have hfa : (f.range == FS_ARRAY) = false := by rw [hr]; decide
   have hfl : (f.range == FS_LIST) = true := by rw [hr]; rfl
   unfold renderFeature
   simp only [beq_iff_eq, Bool.or_eq_true, n1, n2, or_self, reduceCtorEq, Bool.false_eq_true, if_false, hs, hv,
-    Option.getD_some, hres, hm, Bool.not_false, Bool.and_true, hsa, hsl, hpa, hpl, hfa, hfl, if_true]
+    Option.getD_some, xmlName_def, xmlName_begin f hres, xmlName_end f hres, xmlName_sofa f hres, hm, Bool.not_false, Bool.and_true, hsa, hsl, hpa, hpl, hfa, hfl, if_true]
   flat_tail hann with (
     simp only [pure, Except.pure, bind, Except.bind, hcl]
     rw [mapM_ok _ (refTok H) hs' (by
@@ -183,13 +183,13 @@ theorem render_shared_ref (K : Consts) (ts : TypeSystem) (cass : List Cas) (H : 
     (hp : isPrimitive K ts f.range = false)
     (hb : f.range ≠ "uima.cas.Boolean" ∧ f.range ≠ "uima.cas.Double" ∧ f.range ≠ "uima.cas.Float")
     (hann : AnnSofa cass isAnn o) :
-    renderFeature K ts cass H a isAnn f = .ok ([(f.name, idTok H b)], []) := by
+    renderFeature K ts cass H a isAnn f = .ok ([(xmlName f, idTok H b)], []) := by
   obtain ⟨hres, n1, n2, _, _, hns⟩ := nk
   have hs := slot_eq ho
   have hxs := xidStr_idTok hx
   unfold renderFeature
   simp only [beq_iff_eq, Bool.or_eq_true, n1, n2, or_self, reduceCtorEq, Bool.false_eq_true, if_false, hs, hv,
-    Option.getD_some, hres, hm, Bool.not_true, Bool.and_false, hns, hb.1, hb.2.1, hb.2.2, hp]
+    Option.getD_some, xmlName_def, xmlName_begin f hres, xmlName_end f hres, xmlName_sofa f hres, hm, Bool.not_true, Bool.and_false, hns, hb.1, hb.2.1, hb.2.2, hp]
   flat_tail hann with (simp only [pure, Except.pure, bind, Except.bind, hxs])
 
 
